@@ -496,10 +496,15 @@ func RateLimitMiddleware(config RateLimiterConfig) Middleware {
 
 			if tokensToAdd > 0 {
 				limit.tokens += tokensToAdd
-				if limit.tokens > config.BurstSize {
+				if limit.tokens >= config.BurstSize {
 					limit.tokens = config.BurstSize
+					limit.lastRefill = now
+				} else {
+					// Advance only by the time the whole tokens stand for: the
+					// fraction of a token accrued beyond them is kept for the
+					// next request instead of being discarded.
+					limit.lastRefill = limit.lastRefill.Add(time.Duration(float64(tokensToAdd) / float64(config.RequestsPerMinute) * float64(time.Minute)))
 				}
-				limit.lastRefill = now
 			}
 
 			if limit.tokens <= 0 {
